@@ -392,6 +392,7 @@ def main(argv=None):
   ap.add_argument("--oplog", default=None)
   ap.add_argument("--soft-timeout", type=float, default=None)
   ap.add_argument("--no-evidence", action="store_true")
+  ap.add_argument("--aux", default=None, help="internal: check-specific helper entry (mod.aux_main)")
   ap.add_argument("--show", action="store_true", help="with --one/--replay: print the event log")
   args = ap.parse_args(argv)
 
@@ -404,6 +405,9 @@ def main(argv=None):
   name = args.check.lower()
   mod = load_check(name)
   pid = mod.ID
+
+  if args.aux is not None:
+    return mod.aux_main(args.aux)
 
   if args.digests:
     a, b = (int(x) for x in args.digests.split(":"))
